@@ -329,17 +329,25 @@ def run (env : Env) (s : State) : Nat → Result
     | .panic => .panic
     | .fault => .fault
 
-/-- `StackVerifier::stack_validate` with calculator `calcFn` (`none` = no calculator: 256 bytes):
-    pc 0 and every local-call target are function entries -/
-def stackUsage (p : Bytes) (calcFn : Option (Nat → Nat)) : Nat → Option Nat :=
-  let entries : List Nat := 0 :: (List.range (p.size / 8)).filterMap (fun idx =>
+/-- the keys of the `StackUsage` map built by `StackVerifier::stack_validate`: pc 0 and every local-call target -/
+def stackEntries (p : Bytes) : List Nat :=
+  0 :: (List.range (p.size / 8)).filterMap (fun idx =>
     match getInsn? p idx with
     | some i => if i.opc = 0x85 ∧ i.src = 1 then
         let t := (idx : Int) + 1 + i.imm.toInt
         some (if t < 0 then (2 ^ 64 - (-t).toNat) else t.toNat)    -- `dst_insn_ptr as usize`
       else none
     | none => none)
-  fun pc => if entries.contains pc then some (match calcFn with | some c => c pc | none => 256) else none
+
+/-- `StackUsage::stack_usage_for_local_func` over a given key list, with calculator `calcFn`
+    (`none` = no calculator: 256 bytes) -/
+def usageOf (entries : List Nat) (calcFn : Option (Nat → Nat)) (pc : Nat) : Option Nat :=
+  if entries.contains pc then some (match calcFn with | some c => c pc | none => 256) else none
+
+/-- `StackVerifier::stack_validate` with calculator `calcFn`: pc 0 and every local-call target are
+    function entries -/
+def stackUsage (p : Bytes) (calcFn : Option (Nat → Nat)) : Nat → Option Nat :=
+  usageOf (stackEntries p) calcFn
 
 /-- the initial state of `execute_program` -/
 def init (m : Memory) : State :=
